@@ -22,9 +22,14 @@ class App:
         self.op, self.params, self.inp, self.out, self.n = op, params, inp, out, n
 
 
-def entails_ax(ex, c, extra=(), tri=False):
+_ENTAILS_MEMO = {}
+
+
+def entails_ax(ex, c, extra=(), tri=False, fast=False):
     """pc |= c, with the special-function axioms instantiated on the terms of c.
-    tri=False: python bool (unknown counts as False).  tri=True: True / False / None (unknown)."""
+    tri=False: python bool (unknown counts as False).  tri=True: True / False / None (unknown).
+    Results are memoised per (hypotheses, goal): paths are explored by re-execution, so the queries of a common prefix recur with
+    structurally identical terms (z3 hash-conses terms: equal ids = equal terms while the terms are alive; the memo keeps them alive)."""
     if isinstance(c, bool):
         return c
     c = z3.simplify(c)
@@ -32,6 +37,23 @@ def entails_ax(ex, c, extra=(), tri=False):
         return True
     if z3.is_false(c):
         return False
+    hy = [h for h in ex.pc if isz(h)]
+    key = (tuple(h.get_id() for h in hy), c.get_id(), tuple(e.get_id() for e in extra if isz(e)), bool(fast))
+    hit = _ENTAILS_MEMO.get(key)
+    if hit is not None:
+        r = hit[0]
+    else:
+        r = _entails_ax(ex, c, extra, fast)
+        _ENTAILS_MEMO[key] = (r, hy, c, list(extra))
+    if r is None:
+        # undecided internal query: whatever is built on the negative answer must not be reported as a violation
+        mark_incomplete(ex)
+        return None if tri else False
+    return r
+
+
+def _entails_ax(ex, c, extra=(), fast=False):
+    # fast: the caller has numeric evidence that the claim is false; a short budget (the verdict is still the solver's: unknown stays unknown)
     neg = z3.Not(c)
     lem = axioms.instantiate([neg] + list(extra))
     hyps = [h for h in ex.pc if isz(h)]
@@ -42,7 +64,7 @@ def entails_ax(ex, c, extra=(), tri=False):
         if len(h0) < len(hyps):
             terms0 = axioms.abstract_all(h0 + list(extra) + lem + [neg])
             s = z3.Solver()
-            s.set('timeout', min(ex.timeout_ms, 3000))
+            s.set('timeout', min(ex.timeout_ms, 1000 if fast else 3000))
             s.set('arith.solver', 2)
             s.add(*terms0)
             ex.solver_calls += 1
@@ -57,7 +79,7 @@ def entails_ax(ex, c, extra=(), tri=False):
         s.set('timeout', ex.timeout_ms)
         s.add(*terms)
         ex.solver_calls += 1
-        s.set('timeout', min(ex.timeout_ms, 3000))
+        s.set('timeout', min(ex.timeout_ms, 1500 if fast else 3000))
         s.set('arith.solver', 2)          # legacy arithmetic: decisive on these non-linear real queries
         r0 = s.check()
         if r0 == z3.unsat:
@@ -74,7 +96,7 @@ def entails_ax(ex, c, extra=(), tri=False):
     s.add(*lem)
     s.add(neg)
     ex.solver_calls += 1
-    s.set('timeout', min(ex.timeout_ms, 3000))
+    s.set('timeout', min(ex.timeout_ms, 1500 if fast else 3000))
     s.set('arith.solver', 2)
     r = s.check()
     if r == z3.unsat:
@@ -82,14 +104,12 @@ def entails_ax(ex, c, extra=(), tri=False):
     if r == z3.sat:
         return False
     from .vc import run_external
-    r1, _, _ = run_external(s.to_smt2(), 5)
+    r1, _, _ = run_external(s.to_smt2(), 2 if fast else 5)
     if r1 == 'unsat':
         return True
     if r1 == 'sat':
         return False
-    # undecided internal query: whatever is built on the negative answer must not be reported as a violation
-    mark_incomplete(ex)
-    return None if tri else False
+    return None
 
 
 def params_equal(ex, p, q):
@@ -139,7 +159,12 @@ def arrays_equal(ex, a, b):
             return False
     except (Unsupported, z3.Z3Exception):
         pass
-    r = entails_ax(ex, z3.Implies(z3.And(j >= 0, j < tonum(a.shape[0])), e), tri=True)
+    fast = False
+    try:
+        fast = numeval.likely_different(ex.pc, ca, cb, guard=z3.And(j >= 0, j < tonum(a.shape[0])))
+    except (Unsupported, z3.Z3Exception, NameError):
+        pass
+    r = entails_ax(ex, z3.Implies(z3.And(j >= 0, j < tonum(a.shape[0])), e), tri=True, fast=fast)
     if r is None:
         mark_incomplete(ex)
         return False
